@@ -35,6 +35,58 @@ Proof.
 Qed.
 Print Assumptions C15_stream.
 
+(* The same for the host-list library AS VERIFIED in C14: the four oracles are the functions Proofs/HLOracles.v defines from the
+   model of hostlist.c (Model/HL.v, tied to the source by R-HL; the definitions themselves by the R-HLO stage of props/C14.py):
+     hl_expand_str a      hostlist_create a, then hostlist_next until NULL (None = NULL)
+     hl_ranged_sorted l   hostlist_push_host of every name, hostlist_sort, ranged string  (hl_ranged_sorted_expr: hostlist_push, as
+                          client.c spells it; the same text for names free of list syntax, C14_reply_push_is_push_host)
+     hl_ranged_plain l    hostlist_push_host of every name, ranged string
+     hl_sorted l          hostlist_push_host of every name, hostlist_sort, hostlist_next until NULL
+   and the hypothesis oracle_ok of C15_stream is GONE: C14_services_clean proves it (the library never invents a CR or LF).  So a
+   configuration with clean names and clean device texts yields a stream accepted by the executable recogniser Proto.ok,
+   the node sets inside 302 / 303 / 306 / 209 lines included. *)
+From PM Require Import Proofs.HLOraclesClient.
+Theorem C15_stream_hl : forall cf id version evs,
+  events_ok hl_expand_str hl_ranged_sorted hl_ranged_plain hl_sorted (mkCstate cf [] (new_client id version)) evs = true ->
+  exists s' toks st,
+    run1 hl_expand_str hl_ranged_sorted hl_ranged_plain hl_sorted (mkCstate cf [] (new_client id version)) evs = Ok s'
+    /\ cl_out (s_cl s') = render toks /\ run PStart toks = Some st
+    /\ (busy (s_cl s') = false -> at_rest st = true)
+    /\ (terminals toks + b2n (busy (s_cl s')) = lines_of evs)%nat
+    /\ (conf_clean cf -> clean version -> Forall ev_clean evs ->
+        Forall wf_tok toks /\ ok (cl_out (s_cl s')) = true /\ (busy (s_cl s') = false -> ok_rest (cl_out (s_cl s')) = true)).
+Proof. exact client_stream_hl. Qed.
+Theorem C15_stream_hl_expr : forall cf id version evs,
+  events_ok hl_expand_str hl_ranged_sorted_expr hl_ranged_plain hl_sorted (mkCstate cf [] (new_client id version)) evs = true ->
+  exists s' toks st,
+    run1 hl_expand_str hl_ranged_sorted_expr hl_ranged_plain hl_sorted (mkCstate cf [] (new_client id version)) evs = Ok s'
+    /\ cl_out (s_cl s') = render toks /\ run PStart toks = Some st
+    /\ (busy (s_cl s') = false -> at_rest st = true)
+    /\ (terminals toks + b2n (busy (s_cl s')) = lines_of evs)%nat
+    /\ (conf_clean cf -> clean version -> Forall ev_clean evs ->
+        Forall wf_tok toks /\ ok (cl_out (s_cl s')) = true /\ (busy (s_cl s') = false -> ok_rest (cl_out (s_cl s')) = true)).
+Proof. exact client_stream_hl_expr. Qed.
+(* non-vacuity: the oracles compute (n[1-3],x expands to four names; n3 n1 n2 x compresses to n[1-3],x); the toy configuration
+   answers `status n[1-2]`, `nodes`, `on n[2-3],zz` (unknown nodes), `on n[2-` (refused expression) with well-formed lines *)
+Example C15_stream_hl_nonvacuous :
+  hl_expand_str (bslit "n[1-3],x") = Some [bslit "n1"; bslit "n2"; bslit "n3"; bslit "x"]
+  /\ hl_ranged_sorted [bslit "n3"; bslit "n1"; bslit "n2"; bslit "x"] = bslit "n[1-3],x"
+  /\ events_ok hl_expand_str hl_ranged_sorted hl_ranged_plain hl_sorted toy_s0 evs_status_hl = true
+  /\ conf_clean toy_conf /\ Forall ev_clean evs_status_hl
+  /\ out_of (run1 hl_expand_str hl_ranged_sorted hl_ranged_plain hl_sorted toy_s0 evs_status_hl)
+     = bslit "001 2.4" ++ CP_EOL ++ CP_PROMPT
+       ++ bslit "302 on:      n[1-2]" ++ CP_EOL ++ bslit "302 off:     " ++ CP_EOL ++ bslit "302 unknown: " ++ CP_EOL ++ CP_RSP_QRY_COMPLETE ++ CP_PROMPT
+       ++ bslit "306 n[1-2]" ++ CP_EOL ++ CP_RSP_QRY_COMPLETE ++ CP_PROMPT
+       ++ bslit "209 No such nodes: n3,zz" ++ CP_EOL ++ CP_PROMPT
+       ++ bslit "205 Hostlist error: invalid range" ++ CP_EOL ++ CP_PROMPT
+  /\ ok_rest (out_of (run1 hl_expand_str hl_ranged_sorted hl_ranged_plain hl_sorted toy_s0 evs_status_hl)) = true.
+Proof.
+  split; [vm_compute; reflexivity|]. split; [vm_compute; reflexivity|]. split; [exact (proj1 ex_status_hl)|].
+  split; [exact toy_conf_clean|]. split; [repeat constructor|]. split; [exact (proj1 (proj2 ex_status_hl))|exact (proj2 (proj2 (proj2 ex_status_hl)))].
+Qed.
+Print Assumptions C15_stream_hl.
+Print Assumptions C15_stream_hl_expr.
+
 (* the recogniser is meaningful: tokenising is the inverse of rendering on well-formed tokens, in both directions *)
 Theorem C15_tokens_inverse : forall ts s,
   (Forall wf_tok ts -> tokens (render ts) = Some ts) /\ (tokens s = Some ts -> s = render ts /\ Forall wf_tok ts).
